@@ -34,9 +34,10 @@ def step_hook(name, i):
 
 
 TOPOLOGIES = ("chain", "diamond", "multi_saved", "multi_discard", "multi_unsaved")
+# not in TOPOLOGIES (its own check): "diamond_lag" - the diamond with one branch holding back `lag` chunks, nothing saved (LagNet.tla)
 
 
-def build_classes(topo, fail=None, n=NCHUNKS, rec=None, hook=step_hook, save_side=True):
+def build_classes(topo, fail=None, n=NCHUNKS, rec=None, hook=step_hook, save_side=True, lag=0):
     """Plugin classes of a topology; fail = (stage, k) makes that plugin's compute raise at its k-th call.
     Returns (classes, target, all data types)."""
     def fa(stage):
@@ -46,6 +47,13 @@ def build_classes(topo, fail=None, n=NCHUNKS, rec=None, hook=step_hook, save_sid
         a = H.rowmap("pa", "src", fail_at=fa("pa"), rec=rec, step_hook=hook, rechunk_on_save=False)
         b = H.rowmap("pb", "pa", fail_at=fa("pb"), mul=2, add=0, rec=rec, step_hook=hook, rechunk_on_save=False)
         return [src, a, b], "pb", ("src", "pa", "pb")
+    if topo == "diamond_lag":
+        nv = strax.SaveWhen.NEVER
+        src = H.source("src", src_chunks(n), rec=rec, step_hook=hook, save_when=nv)
+        a = H.samekind_map("pa", "src", "ab", "va", mul=1, add=1, rec=rec, step_hook=hook, rechunk_on_save=False, save_when=nv)
+        b = H.lagged(H.samekind_map("pb", "src", "ab", "vb", mul=2, add=0, rec=rec, step_hook=hook, rechunk_on_save=False, save_when=nv), lag)
+        c = H.combine("pc", ("pa", "pb"), ("va", "vb"), rec=rec, step_hook=hook, rechunk_on_save=False, save_when=nv)
+        return [src, a, b, c], "pc", ("src", "pa", "pb", "pc")
     if topo == "diamond":
         a = H.samekind_map("pa", "src", "ab", "va", mul=1, add=1, fail_at=fa("pa"), rec=rec, step_hook=hook, rechunk_on_save=False)
         b = H.samekind_map("pb", "src", "ab", "vb", mul=2, add=0, fail_at=fa("pb"), rec=rec, step_hook=hook, rechunk_on_save=False)
@@ -65,7 +73,7 @@ def whole_run(topo, n=NCHUNKS):
     rows = [r for c in src_chunks(n) for r in c["rows"]]
     if topo == "chain":
         return [[r[0], r[1], 2 * (3 * r[2] + 1)] for r in rows]
-    if topo == "diamond":
+    if topo in ("diamond", "diamond_lag"):
         return [[r[0], r[1], (r[2] + 1) + 2 * r[2]] for r in rows]
     return [[r[0], r[1], 3 * (2 * r[2]) + 1] for r in rows]
 
@@ -219,7 +227,7 @@ def run_scenario(sc, schedule_seed=0, under_dsched=True, record=None, tracer=Non
     rec = H.Recorder()
     obs = dict(outcome="", exc_type="", exc_msg="", hang=None, live=0, rows=None, steps=0, src_calls=0, maxbox={}, chunks=None)
     try:
-        classes, target, types = build_classes(topo, fail=fail if fail and ":" not in fail[0] else None, n=n, rec=rec)
+        classes, target, types = build_classes(topo, fail=fail if fail and ":" not in fail[0] else None, n=n, rec=rec, lag=sc.get("lag", 0))
         if fail and fail[0].startswith("load:"):
             # pre-store the loaded type with a clean context
             c0, _, _ = build_classes(topo, n=n, hook=lambda *a: None)
